@@ -242,7 +242,7 @@ theorem carries_merge (pf : List (Bytes × Bytes)) : Carries .merge (hMerge pf) 
   | appendSlot => rw [hMerge] at h; cases h
   | missing rem => rw [hMerge] at h; rw [carries_missing hm]; exact autoCreate_keeps h hc
 
-theorem carries_removeVal (v : Bytes) : Carries .removeVal (hRemoveVal v) := by
+theorem carries_removeVal (rm : List Node → List Node) : Carries .removeVal (hRemoveVal rm) := by
   intro u hit u' _ h j j' c hm hc
   cases hit with
   | target i => exact carries_of_target_set (by decide) (hRemoveVal_siblings h).1 hm hc
